@@ -8,7 +8,7 @@ GEN = ["primality"]
 LEAN = ["Ymq.Props.C04", "Ymq.Props.C04Relations"]
 AUDIT = "Ymq.Audit.C04"
 THEOREMS = ["Ymq.C04.sched_inv", "Ymq.C04.sched_done_monotone", "Ymq.C04.sched_bounded_work", "Ymq.C04.sched_progress",
-            "Ymq.C04.sched_relations_valid"]
+            "Ymq.C04.sched_relations_valid", "Ymq.C04.sched_no_panic"]
 PROFILES = ["release", "chk"]
 TIMEOUT = 180.0
 RULE = ("real runs of qs/mpqs/siqs/auto/ecm with thread pools of 1,2,3,4,8,16 threads and a seeded yield/sleep before every "
@@ -31,7 +31,10 @@ def cases(tier, rng, extended=False):
     if extended:
         reps *= 3
     for _ in range(reps):
-        for alg, bitlist in (("siqs", [64, 80, 100, 120]), ("mpqs", [64, 80, 100]), ("qs", [64, 80, 96]),
+        # 175-185 bits: the relation count sits close to the factor-base size when the completion test fires,
+        # so the `gap`/`target` top-up logic (several completion checks by different workers) is exercised
+        for alg, bitlist in (("siqs", [64, 80, 100, 120] + ([rng.choice([176, 180, 184])] if _ == 0 else [])),
+                             ("mpqs", [64, 80, 100]), ("qs", [64, 80, 96]),
                              ("auto", [90, 130]), ("ecm", [70, 100])):
             for bits in bitlist:
                 fs = [gen.rand_prime(rng, bits // 2), gen.rand_prime(rng, bits - bits // 2)]
@@ -45,10 +48,11 @@ def cases(tier, rng, extended=False):
                 if alg in ("siqs", "mpqs", "qs") and rng.random() < 0.3:
                     toks.append(f"lf={rng.choice([10, 50, 200])}")
                 # baseline: the single-threaded run with the same preferences (no pool, no jitter)
-                yield Case(" ".join([f"threads_run {n} {alg} 0 0"] + toks), k=False, tag=",".join(map(str, sorted(fs))))
+                yield Case(" ".join([f"threads_run {n} {alg} 0 0"] + toks), k=False, tag=",".join(map(str, sorted(fs))),
+                           profiles=["release"] if bits >= 170 else None)
                 for t in tlist:
                     jit = rng.getrandbits(32) | 1 if rng.random() < 0.8 else 0
-                    pr = None if rng.random() < 0.25 else ["release"]
+                    pr = None if rng.random() < 0.25 and bits < 170 else ["release"]
                     yield Case(" ".join([f"threads_run {n} {alg} {t} {jit}"] + toks), k=False,
                                tag=",".join(map(str, sorted(fs))), profiles=pr)
 
